@@ -129,8 +129,13 @@ func c17Read(rec *vk.Rec, ci int) {
 	if !eofTerminated && size < 80 {
 		eofTerminated = true
 	}
+	tlsLike := false
 	if eofTerminated {
 		cl.CloseWrite()
+		if r.Chance(35) { // a TLS-like source: the last bytes and the end of the stream arrive in one Read
+			sv.EOFWithData()
+			tlsLike = true
+		}
 	}
 	conn := listener.VerifNewConn(sv, 60)
 	defer conn.Close()
@@ -143,7 +148,12 @@ func c17Read(rec *vk.Rec, ci int) {
 	bufSize := []int{1, 2, 5, 64, 512, 4096, 65536}[r.Intn(7)]
 	buf := make([]byte, bufSize)
 	empties := 0
-	for len(got) < len(data) || eofTerminated {
+	if !eofTerminated {
+		// the stream stayed open while the matchers sniffed; it is half-closed now, so that the reader meets EOF after the
+		// last byte and a stream that lost bytes ends short instead of blocking the monitor for ever
+		cl.CloseWrite()
+	}
+	for {
 		k, err := conn.Read(buf[:1+r.Intn(bufSize)])
 		got = append(got, buf[:k]...)
 		if err != nil {
@@ -160,9 +170,12 @@ func c17Read(rec *vk.Rec, ci int) {
 		}
 	}
 	rec.Add("bytes_read_side", int64(len(data)))
-	rec.Case(vk.Hash("read", size, maxChunk, fmt.Sprint(names), bufSize, eofTerminated, fmt.Sprint(chunks[:min(len(chunks), 20)])), len(chunks) >= 2 && len(names) >= 2)
+	if tlsLike {
+		rec.Inc("read_cases_data_with_eof")
+	}
+	rec.Case(vk.Hash("read", size, maxChunk, fmt.Sprint(names), bufSize, eofTerminated, tlsLike, fmt.Sprint(chunks[:min(len(chunks), 20)])), len(chunks) >= 2 && len(names) >= 2)
 	if !bytes.Equal(got, data) {
-		rec.Violation(ci, "sniffer-altered-stream", fmt.Sprintf("matchers %v (matched #%d), socket reads of up to %d bytes, reader buffer %d, eof=%v: %s", names, idx, maxChunk, bufSize, eofTerminated, firstDiff(got, data)),
+		rec.Violation(ci, "sniffer-altered-stream", fmt.Sprintf("matchers %v (matched #%d), socket reads of up to %d bytes, reader buffer %d, eof=%v, last bytes together with EOF=%v: %s", names, idx, maxChunk, bufSize, eofTerminated, tlsLike, firstDiff(got, data)),
 			map[string]interface{}{"matchers": names, "size": size, "max_chunk": maxChunk, "reader_buffer": bufSize, "eof_terminated": eofTerminated})
 	}
 	if rec.WantSample() && len(names) > 1 {
